@@ -81,6 +81,14 @@ func buildTable(f tableFeat, g *docGen) string {
 			}
 		}
 	}
+	if shortApplies && r.Intn(2) == 0 {
+		// the short last row is often short because one of its cells spans two columns: the row is as wide as the
+		// others then, and the table has the same number of columns and of cells as without the attribute
+		row := rows[f.Rows-1]
+		row[len(row)-1-r.Intn(f.Cols-1)].attrs += pickS(r, ` colspan="2"`, ` colspan="2"`, ` colspan=" 2"`, ` COLSPAN="2"`)
+	} else if len(tds) > 0 && r.Intn(4) == 0 {
+		tds[r.Intn(len(tds))].attrs += pickS(r, ` colspan="1"`, ` colspan="0"`, ` colspan=""`, ` rowspan="1"`)
+	}
 	if len(tds) > 0 {
 		first, last := tds[0], tds[len(tds)-1]
 		switch f.CellAttr {
